@@ -991,4 +991,71 @@ def fresh : St := { dflt := false, assigned := 0, dropped := false }
 
 end Seq
 
+/-! ## hashicorp/raft `ValidateConfig` (round 8c): the formerly opaque conjunct of the raft section
+
+`harness/common/c15_validate.go` now follows `hraft.ValidateConfig(cfg.RaftConfig)` into the module go.mod names (module cache),
+folds `protocolMin` (`ProtocolVersionMin` = 0 ⇒ 1) and inlines its 11 conjuncts over `RaftConfig.<field>`. `HRaft.conjs` is what
+the translator must regenerate (`table_raft_hraft`); `HRaft.Valid` is the same as a Prop. -/
+namespace HRaft
+
+/-- the Config fields `hraft.ValidateConfig` reads (durations in ns; `lid` = len(LocalID)) -/
+structure Vals where
+  pv : Int
+  lid : Int
+  hb : Int
+  el : Int
+  ct : Int
+  mae : Int
+  si : Int
+  ll : Int
+  deriving Repr
+
+def ms : Int := 1000000
+
+/-- hashicorp/raft v1.1.1 `ValidateConfig`, conjunct by conjunct (each entry REJECTS when it holds) -/
+def conjs : List Conj := [
+  { guard := none, cond := .or (.cmp (.fld "RaftConfig.ProtocolVersion") .lt (.cst (.int 1))) (.cmp (.fld "RaftConfig.ProtocolVersion") .gt (.cst (.int 3))) },
+  { guard := none, cond := .cmp (.len "RaftConfig.LocalID") .eq (.cst (.int 0)) },
+  { guard := none, cond := .cmp (.fld "RaftConfig.HeartbeatTimeout") .lt (.cst (.dur 5000000)) },
+  { guard := none, cond := .cmp (.fld "RaftConfig.ElectionTimeout") .lt (.cst (.dur 5000000)) },
+  { guard := none, cond := .cmp (.fld "RaftConfig.CommitTimeout") .lt (.cst (.dur 1000000)) },
+  { guard := none, cond := .cmp (.fld "RaftConfig.MaxAppendEntries") .le (.cst (.int 0)) },
+  { guard := none, cond := .cmp (.fld "RaftConfig.MaxAppendEntries") .gt (.cst (.int 1024)) },
+  { guard := none, cond := .cmp (.fld "RaftConfig.SnapshotInterval") .lt (.cst (.dur 5000000)) },
+  { guard := none, cond := .cmp (.fld "RaftConfig.LeaderLeaseTimeout") .lt (.cst (.dur 5000000)) },
+  { guard := none, cond := .cmp (.fld "RaftConfig.LeaderLeaseTimeout") .gt (.fld "RaftConfig.HeartbeatTimeout") },
+  { guard := none, cond := .cmp (.fld "RaftConfig.ElectionTimeout") .lt (.fld "RaftConfig.HeartbeatTimeout") }]
+
+def env (r : Vals) : Env := [
+  ("f:RaftConfig.ProtocolVersion", .int r.pv), ("l:RaftConfig.LocalID", .int r.lid),
+  ("f:RaftConfig.HeartbeatTimeout", .int r.hb), ("f:RaftConfig.ElectionTimeout", .int r.el),
+  ("f:RaftConfig.CommitTimeout", .int r.ct), ("f:RaftConfig.MaxAppendEntries", .int r.mae),
+  ("f:RaftConfig.SnapshotInterval", .int r.si), ("f:RaftConfig.LeaderLeaseTimeout", .int r.ll)]
+
+/-- what hashicorp/raft calls a valid configuration -/
+def Valid (r : Vals) : Prop :=
+  1 ≤ r.pv ∧ r.pv ≤ 3 ∧ r.lid ≠ 0 ∧ 5 * ms ≤ r.hb ∧ 5 * ms ≤ r.el ∧ ms ≤ r.ct ∧ 1 ≤ r.mae ∧ r.mae ≤ 1024 ∧
+  5 * ms ≤ r.si ∧ 5 * ms ≤ r.ll ∧ r.ll ≤ r.hb ∧ r.hb ≤ r.el
+
+/-- hraft's own defaults (DefaultConfig) with the LocalID ipfs-cluster sets -/
+def dflt : Vals := { pv := 3, lid := 25, hb := 1000 * ms, el := 1000 * ms, ct := 50 * ms, mae := 64, si := 120000 * ms, ll := 500 * ms }
+
+/-- both sides of every bound of `ValidateConfig`, from hraft's defaults -/
+def boundaryCases : List (Vals × Verdict) := [
+  (dflt, .accept),
+  ({ dflt with pv := 0 }, .reject), ({ dflt with pv := 1 }, .accept), ({ dflt with pv := 3 }, .accept), ({ dflt with pv := 4 }, .reject),
+  ({ dflt with lid := 0 }, .reject), ({ dflt with lid := 1 }, .accept),
+  ({ dflt with hb := 5 * ms, ll := 5 * ms }, .accept), ({ dflt with hb := 5 * ms - 1, ll := 5 * ms - 1 }, .reject),
+  ({ dflt with hb := 5 * ms - 1, ll := 5 * ms }, .reject),
+  ({ dflt with el := 5 * ms, hb := 5 * ms, ll := 5 * ms }, .accept), ({ dflt with el := 5 * ms - 1, hb := 5 * ms, ll := 5 * ms }, .reject),
+  ({ dflt with ct := ms }, .accept), ({ dflt with ct := ms - 1 }, .reject), ({ dflt with ct := 0 }, .reject),
+  ({ dflt with mae := 0 }, .reject), ({ dflt with mae := 1 }, .accept), ({ dflt with mae := 1024 }, .accept), ({ dflt with mae := 1025 }, .reject),
+  ({ dflt with mae := -1 }, .reject),
+  ({ dflt with si := 5 * ms }, .accept), ({ dflt with si := 5 * ms - 1 }, .reject),
+  ({ dflt with ll := 5 * ms }, .accept), ({ dflt with ll := 5 * ms - 1 }, .reject),
+  ({ dflt with ll := 1000 * ms }, .accept), ({ dflt with ll := 1000 * ms + 1 }, .reject),
+  ({ dflt with el := 1000 * ms }, .accept), ({ dflt with el := 1000 * ms - 1 }, .reject), ({ dflt with hb := 1000 * ms + 1 }, .reject)]
+
+end HRaft
+
 end CV.C15
